@@ -4,7 +4,7 @@ from __future__ import annotations
 import ast
 from typing import Dict, List, Optional, Set, Tuple
 
-from ..index import AnalysisError, Func, dotted, last_name, norm_stmt, parent
+from ..index import AnalysisError, Func, dotted, last_name, norm_stmt, parent, alpha_eq
 from ..mustflow import run_must
 from ..report import Finding, RuleResult
 
@@ -98,6 +98,11 @@ def rule_nameconf(ctx, prop: str) -> RuleResult:
     for f, node, cons in nameconf_sites(ix, scope):
         key = (f.file, f.qualname, cons)
         tri = NAME_TRIAGE.get(key)
+        if tri is None:
+            # same function, alpha-equivalent construct (a local was renamed): the triage still applies
+            cands = [v for (fl, q_, c_), v in NAME_TRIAGE.items() if fl == f.file and q_ == f.qualname and alpha_eq(c_, cons)]
+            if len(cands) == 1:
+                tri = cands[0]
         if tri is not None and prop not in tri[2]:
             continue
         n += 1
